@@ -148,8 +148,9 @@ def rtdc_copy(src_h5file: h5py.Group,
                                 src_name=feat,
                                 dst_loc=dst_h5file["events"],
                                 recursive=True)
-                if scalar_feature_exists(feat):
+                if dst is not None and scalar_feature_exists(feat):
                     # complement min/max values for all scalar features
+                    # (empty datasets are ignored by `h5ds_copy`)
                     for ufunc, attr in [(np.nanmin, "min"),
                                         (np.nanmax, "max"),
                                         (np.nanmean, "mean"),
@@ -246,7 +247,8 @@ def h5ds_copy(src_loc, src_name, dst_loc, dst_name=None,
     Returns
     -------
     dst: h5py.Dataset
-        The dataset `dst_loc[dst_name]`
+        The dataset `dst_loc[dst_name]` or None if the source dataset
+        is empty and was therefore ignored
 
     Raises
     ------
